@@ -166,6 +166,49 @@ def _check_mesh(run, mesh, rng, tier):
         run.fail(f"raises:{type(e).__name__}:edge_face_distances:{sc}", f"edge_face_distances raises {type(e).__name__}: {e}",
                  "edge_face_distances[e] is the great-circle distance between the centres of the two faces sharing e", inputs)
 
+    # ---------------------------------------------------------------- a subset taken after the parent's tables were evaluated
+    if ef_ok and mesh["n_face"] >= 3:
+        nf = mesh["n_face"]
+        keep = sorted(rng.sample(range(nf), max(1, nf // 2)))
+        run.cases += 1
+        sinputs = dict(inputs, subset=f"Grid.isel(n_face={keep[:8]}{'...' if len(keep) > 8 else ''}) after the parent's distances were read")
+        try:
+            sub = g.isel(n_face=keep)
+            sen = np.array(sub.edge_node_connectivity.values)
+            sfaces = np.array(sub.face_node_connectivity.values)
+            smesh = {"name": mesh["name"] + ":subset", "lon": np.array(sub.node_lon.values, float), "lat": np.array(sub.node_lat.values, float),
+                     "faces": sfaces, "n_face": int(sfaces.shape[0]), "n_node": int(sub.n_node), "closed": False}
+            sorc = _oracle(smesh, sen)
+            if sorc is not None:
+                sb = np.array([len(fs) == 1 for fs in sorc["faces_of"]])
+                si = np.array([len(fs) == 2 for fs in sorc["faces_of"]])
+                sef = np.array(sub.edge_face_distances.values, float)
+                sed = np.array(sub.edge_node_distances.values, float)
+                if sef.shape != (sen.shape[0],) or sed.shape != (sen.shape[0],):
+                    run.fail("subset:edge_distances:shape", "edge distances of a subset grid do not have shape (n_edge,) of the subset",
+                             "edge-dimensioned", sinputs, observed=[list(sef.shape), list(sed.shape)], expected=[int(sen.shape[0])])
+                else:
+                    j = _first_bad(sef, sorc["ef"], mask=sorc["usable"] & sb)
+                    if j is not None:
+                        run.fail("subset:edge_face_distances:boundary_not_zero",
+                                 "edge_face_distances of a subset grid is not zero on an edge that is a boundary edge of the subset",
+                                 "edge_face_distances[e] is zero for boundary edges", sinputs,
+                                 observed={"edge": j[0], "value": float(sef[j])}, expected=0.0)
+                    i = _first_bad(sef, sorc["ef"], mask=sorc["usable"] & si)
+                    if i is not None:
+                        run.fail("subset:edge_face_distances:value",
+                                 "edge_face_distances of a subset grid differs from the distance between the centres of the two subset faces sharing the edge",
+                                 "edge_face_distances[e] is the great-circle distance between the centres of the two faces sharing e", sinputs,
+                                 observed={"edge": i[0], "value": float(sef[i])}, expected=float(sorc["ef"][i[0]]))
+                    i = _first_bad(sed, sorc["en"])
+                    if i is not None:
+                        run.fail("subset:edge_node_distances:value", "edge_node_distances of a subset grid differs from the distance of the edge's nodes",
+                                 "edge_node_distances[e] is the great-circle distance between edge e's two nodes", sinputs,
+                                 observed={"edge": i[0], "value": float(sed[i])}, expected=float(sorc["en"][i[0]]))
+        except Exception as e:  # noqa: BLE001
+            run.fail(f"raises:{type(e).__name__}:subset_edge_distances", f"edge distances of Grid.isel(n_face=...) raise {type(e).__name__}: {e}",
+                     "edge_face_distances[e] is the great-circle distance between the centres of the two faces sharing e", sinputs)
+
     # ---------------------------------------------------------------- difference (face / node centred)
     nrng = np.random.default_rng(rng.randrange(2 ** 31))
     exp_f0 = np.array([fs[0] for fs in orc["faces_of"]])
